@@ -343,4 +343,482 @@ theorem nextTerm_spec (sub : Str) (hne : sub ≠ []) (hI : NoRB sub) :
       intro term rest h
       exact tailSpec (c :: rest0) hI (Nat.le_refl _) (fun _ => by simpa using hc) term rest h
 
+-- parse_labels -------------------------------------------------------------------------------------------------------
+
+/-- the body of one iteration of the `while sub_labels:` loop after `_next_term` (text mode) -/
+def oneLabelBody (legacy : Bool) (labels : List (Str × Str)) (term rest : Str) : PyM (List (Str × Str) × Str) :=
+  if term.isEmpty then pure (labels, rest)
+  else do
+    let opPos := nextUnquotedChar term (· == '=')
+    let (labelName, quotedName, term1) ← (match opPos with
+      | none => (pure (("__name__".toList, true, term)) : PyM (Str × Bool × Str))
+      | some vs => do
+        let (ln, q) ← unquoteUnescape (term.take vs)
+        pure (ln, q, term.drop (vs + 1)))
+    if !quotedName && !isValidLegacyMetricName labelName then throw .valueError
+    let term2 := strip term1
+    match term2 with
+    | '"' :: _ =>
+      match findClosingQuote term2 (term2.length + 1) 1 with
+      | none => throw .valueError
+      | some i =>
+        let quoteEnd := i + 1
+        if quoteEnd != term2.length then throw .valueError
+        let (labelValue, _) ← unquoteUnescape (term2.take quoteEnd)
+        if labelName == "__name__".toList then validateMetricName legacy labelName
+        else validateLabelname legacy labelName
+        if labels.any (fun kv => kv.1 == labelName) then throw .valueError
+        pure (labels ++ [(labelName, labelValue)], rest)
+    | _ => throw .valueError
+
+theorem parseOneLabel_eq (legacy : Bool) (sub : Str) (labels : List (Str × Str)) :
+    parseOneLabel legacy false sub labels = nextTerm sub false >>= fun tr => oneLabelBody legacy labels tr.1 tr.2 := by
+  unfold parseOneLabel oneLabelBody
+  cases nextTerm sub false with
+  | error e => rfl
+  | ok tr => obtain ⟨term, rest⟩ := tr; simp only [bind, Except.bind, Bool.false_eq_true, ↓reduceIte]; rfl
+
+theorem take_safe_of_head {term : Str} (hh : ∀ a, term.head? = some a → isPySpace a = false) (n : Nat) :
+    term.take n = [] ∨ strip (term.take n) ≠ [] := by
+  cases term with
+  | nil => left; simp
+  | cons a t =>
+    cases n with
+    | zero => left; rfl
+    | succ k =>
+      right
+      have ha := hh a rfl
+      simp only [List.take_succ_cons]
+      rw [strip_of_head (a := a) rfl ha]
+      intro e
+      have := (rstripSet_eq_nil_iff isPySpace (a :: List.take k t)).mp e
+      simp [ha] at this
+
+theorem safe_validateMetricName (legacy : Bool) (n : Str) : Safe (validateMetricName legacy n) := by
+  intro e he; unfold validateMetricName at he
+  split at he
+  · cases he; rfl
+  · split at he
+    · cases he; rfl
+    · cases he
+
+theorem safe_validateLabelname (legacy : Bool) (n : Str) : Safe (validateLabelname legacy n) := by
+  intro e he; unfold validateLabelname at he
+  split at he
+  · split at he
+    · cases he; rfl
+    · split at he
+      · cases he; rfl
+      · cases he
+  · split at he
+    · cases he; rfl
+    · cases he
+
+theorem safe_ite {α : Type} {c : Prop} [Decidable c] {a b : PyM α} (ha : Safe a) (hb : Safe b) : Safe (if c then a else b) := by
+  split <;> assumption
+
+theorem safe_throw_bind {α β : Type} (f : α → PyM β) : Safe ((throw .valueError : PyM α) >>= f) := by
+  intro e he; cases he; rfl
+
+theorem oneLabelBody_safe (legacy : Bool) (labels : List (Str × Str)) (term rest : Str)
+    (hh : ∀ a, term.head? = some a → isPySpace a = false) : Safe (oneLabelBody legacy labels term rest) := by
+  unfold oneLabelBody
+  apply safe_ite (safe_pure _)
+  apply safe_bind
+  · split
+    · exact safe_pure _
+    · apply safe_bind (unquoteUnescape_safe _ (take_safe_of_head hh _))
+      intro a _; exact safe_pure _
+  · intro x _
+    obtain ⟨labelName, quotedName, term1⟩ := x
+    simp only []
+    refine safe_ite (safe_throw_bind _) ?_
+    split
+    · rename_i tl heq
+      split
+      · exact safe_throw
+      · refine safe_ite (safe_throw_bind _) ?_
+        apply safe_bind
+        · apply unquoteUnescape_safe
+          right
+          rw [heq]
+          simp only [List.take_succ_cons]
+          rw [strip_of_head (a := '"') rfl (by decide)]
+          intro e
+          have := (rstripSet_eq_nil_iff isPySpace _).mp e
+          simp at this
+          exact absurd this.1 (by decide)
+        · intro y _
+          refine safe_ite ?_ ?_
+          · apply safe_bind (safe_validateMetricName _ _)
+            intro _ _
+            exact safe_ite (safe_throw_bind _) (safe_pure _)
+          · apply safe_bind (safe_validateLabelname _ _)
+            intro _ _
+            exact safe_ite (safe_throw_bind _) (safe_pure _)
+    · exact safe_throw
+
+
+/-- a successful result carries the given remainder -/
+def RestIs (rest : Str) (r : PyM (List (Str × Str) × Str)) : Prop := ∀ l' r', r = .ok (l', r') → r' = rest
+
+theorem restIs_pure (rest : Str) (l : List (Str × Str)) : RestIs rest (pure (l, rest)) := by
+  intro l' r' h; cases h; rfl
+theorem restIs_throw (rest : Str) : RestIs rest (throw .valueError) := by
+  intro l' r' h; cases h
+theorem restIs_bind {α : Type} (rest : Str) (m : PyM α) (f : α → PyM (List (Str × Str) × Str)) (hf : ∀ a, RestIs rest (f a)) :
+    RestIs rest (m >>= f) := by
+  intro l' r' h
+  cases hm : m with
+  | error e => rw [hm] at h; cases h
+  | ok a => rw [hm] at h; exact hf a l' r' h
+theorem restIs_ite {c : Prop} [Decidable c] {rest : Str} {a b : PyM (List (Str × Str) × Str)} (ha : RestIs rest a)
+    (hb : RestIs rest b) : RestIs rest (if c then a else b) := by
+  split <;> assumption
+
+theorem oneLabelBody_rest (legacy : Bool) (labels : List (Str × Str)) (term rest : Str) :
+    RestIs rest (oneLabelBody legacy labels term rest) := by
+  unfold oneLabelBody
+  apply restIs_ite (restIs_pure _ _)
+  apply restIs_bind
+  intro x
+  obtain ⟨labelName, quotedName, term1⟩ := x
+  simp only []
+  refine restIs_ite (restIs_bind _ _ _ (fun _ => ?_)) ?_
+  all_goals
+    split
+    · split
+      · exact restIs_throw _
+      · refine restIs_ite (restIs_bind _ _ _ (fun _ => ?_)) ?_
+        all_goals
+          apply restIs_bind
+          intro y
+          refine restIs_ite ?_ ?_
+          all_goals
+            apply restIs_bind
+            intro _
+            exact restIs_ite (restIs_bind _ _ _ (fun _ => restIs_pure _ _)) (restIs_pure _ _)
+    · exact restIs_throw _
+
+/-- one iteration of the label loop on a non-empty string without unquoted '}': only ValueError, and the remainder is
+strictly shorter and still without unquoted '}' -/
+theorem parseOneLabel_spec (legacy : Bool) (sub : Str) (hne : sub ≠ []) (hI : NoRB sub) (labels : List (Str × Str)) :
+    Safe (parseOneLabel legacy false sub labels) ∧
+    ∀ l' rest, parseOneLabel legacy false sub labels = .ok (l', rest) → rest.length < sub.length ∧ NoRB rest := by
+  obtain ⟨hs, hr⟩ := nextTerm_spec sub hne hI
+  rw [parseOneLabel_eq]
+  refine ⟨safe_bind hs (fun tr htr => oneLabelBody_safe _ _ _ _ (hr tr.1 tr.2 htr).2.2), ?_⟩
+  intro l' rest h
+  cases hnt : nextTerm sub false with
+  | error e => rw [hnt] at h; cases h
+  | ok tr =>
+    rw [hnt] at h
+    have h' : oneLabelBody legacy labels tr.1 tr.2 = .ok (l', rest) := h
+    have := oneLabelBody_rest legacy labels tr.1 tr.2 l' rest h'
+    subst this
+    have := hr tr.1 tr.2 hnt
+    exact ⟨this.1, this.2.1⟩
+
+/-- **the label loop terminates**: with fuel above the length of a string without unquoted '}', `timeout` is unreachable
+and only ValueError can be raised -/
+theorem parseLabelsLoop_safe (legacy : Bool) : ∀ (fuel : Nat) (sub : Str) (labels : List (Str × Str)),
+    sub.length < fuel → NoRB sub → Safe (parseLabelsLoop legacy false fuel sub labels) := by
+  intro fuel
+  induction fuel with
+  | zero => intro sub labels h; omega
+  | succ f ih =>
+    intro sub labels hf hI
+    rw [parseLabelsLoop]
+    by_cases he : sub.isEmpty = true
+    · simp only [he, ↓reduceIte]; exact safe_ok _
+    · simp only [he, Bool.false_eq_true, ↓reduceIte]
+      have hne : sub ≠ [] := by intro e; subst e; simp at he
+      obtain ⟨hs, hr⟩ := parseOneLabel_spec legacy sub hne hI labels
+      apply safe_bind hs
+      intro x hx
+      obtain ⟨l', rest⟩ := x
+      have := hr l' rest hx
+      exact ih rest l' (by omega) this.2
+
+theorem parseLabels_safe (legacy : Bool) (s : Str) (hI : NoRB s) : Safe (parseLabels legacy s false) := by
+  unfold parseLabels
+  simp only [Bool.false_and, Bool.false_eq_true, ↓reduceIte]
+  exact parseLabelsLoop_safe legacy _ _ _ (by omega) (noRB_strip hI)
+
+-- values and timestamps ------------------------------------------------------------------------------------------------
+
+theorem safe_parseValue (pyInt : Str → Option Int) (pyFloat : Str → Option Nat) (v : Str) : Safe (parseValue pyInt pyFloat v) := by
+  intro e he; unfold parseValue at he
+  split at he
+  · cases he; rfl
+  · split at he
+    · cases he
+    · split at he
+      · cases he
+      · cases he; rfl
+
+/-- some integer the `int()` parameter returns is too large for `/ 1000` -/
+def HugeInt (pyInt : Str → Option Int) : Prop := ∃ s n, pyInt s = some n ∧ intDivOverflows n = true
+
+theorem parseValue_int (pyInt : Str → Option Int) (pyFloat : Str → Option Nat) (v : Str) (n : Int)
+    (h : parseValue pyInt pyFloat v = .ok (.int n)) : pyInt v = some n := by
+  unfold parseValue at h
+  split at h
+  · cases h
+  · split at h
+    · next m hm => cases h; exact hm
+    · split at h <;> cases h
+
+theorem err3_divThousand (pyInt : Str → Option Int) (pyFloat : Str → Option Nat) (v : Str) (t : Num)
+    (h : parseValue pyInt pyFloat v = .ok t) (P : Prop) : Err3 P (HugeInt pyInt) (divThousand t) := by
+  intro e he
+  cases t with
+  | flt b => cases he
+  | int n =>
+    by_cases ho : intDivOverflows n = true
+    · have : divThousand (.int n) = .error .overflowError := by simp only [divThousand, ho, ↓reduceIte]
+      rw [this] at he; cases he
+      exact Or.inr (Or.inr ⟨rfl, v, n, parseValue_int _ _ _ _ h, ho⟩)
+    · have : divThousand (.int n) = .ok ⟨.int n⟩ := by simp only [divThousand, ho, Bool.false_eq_true, ↓reduceIte]
+      rw [this] at he; cases he
+
+theorem err3_pvt (pyInt : Str → Option Int) (pyFloat : Str → Option Nat) (s : Str) (P : Prop) :
+    Err3 P (HugeInt pyInt) (parseValueAndTimestamp pyInt pyFloat s) := by
+  unfold parseValueAndTimestamp
+  simp only []
+  split
+  · split
+    · exact (safe_ok _).err3
+    · exact safe_valueError.err3
+  · apply err3_bind (safe_parseValue _ _ _).err3
+    intro value _
+    split
+    · exact (safe_pure _).err3
+    · next vl _ =>
+      apply err3_bind (safe_parseValue _ _ _).err3
+      intro t ht
+      apply err3_bind (err3_divThousand pyInt pyFloat vl t ht P)
+      intro _ _
+      exact (safe_pure _).err3
+
+
+-- _parse_sample -----------------------------------------------------------------------------------------------------------
+
+/-- after the first unquoted '{' the scanner is in the unquoted state with even parity -/
+theorem run_after_lbrace (t : Str) (i : Nat) (h : nextUnquotedChar t (· == '{') = some i) :
+    run (t.take (i + 1)) false false = (false, false) := by
+  rw [nextUnquotedChar_zero] at h
+  obtain ⟨a, c, b, e, hl, _, hc⟩ := scan_some_split _ _ _ _ _ h
+  simp only [Bool.and_eq_true, Bool.not_eq_true', beq_iff_eq] at hc
+  obtain ⟨hq, hcc⟩ := hc
+  subst hcc
+  have : t.take (i + 1) = a ++ ['{'] := by
+    rw [e, ← hl, show a ++ '{' :: b = (a ++ ['{']) ++ b by simp, show a.length + 1 = (a ++ ['{']).length by simp]
+    exact List.take_left
+  rw [this, run_append]
+  have hq' : (run a false false).1 = false := by simpa [qStep] using hq
+  simp [run, qStep, bsStep, hq']
+
+theorem noRB_take_of_scan (t : Str) (le : Option Nat) (h : nextUnquotedChar t (· == '}') = le) : NoRB (sliceTo t le) := by
+  rw [nextUnquotedChar_zero] at h
+  cases le with
+  | none =>
+    have hn : NoRB t := scan_none_noHit rbChs t false false h
+    unfold sliceTo
+    cases hl : t.getLast? with
+    | none => have : t = [] := List.getLast?_eq_none_iff.mp hl; subst this; exact noRB_nil
+    | some b =>
+      obtain ⟨ys, hys⟩ := List.getLast?_eq_some_iff.mp hl
+      rw [hys] at hn ⊢
+      simp only [List.dropLast_concat]
+      exact noRB_prefix hn
+  | some p =>
+    obtain ⟨a, c, b, e, hl, hn, _⟩ := scan_some_split rbChs _ _ _ _ h
+    subst hl
+    rw [e]
+    show NoRB (List.take a.length (a ++ c :: b))
+    rw [List.take_left]
+    exact hn
+
+theorem sliceTo_eq_take (t : Str) (le : Option Nat) : ∃ m, sliceTo t le = t.take m := by
+  cases le with
+  | none => exact ⟨t.length - 1, List.dropLast_eq_take⟩
+  | some p => exact ⟨p, rfl⟩
+
+theorem noRB_drop {x : Str} (k : Nat) (hx : NoRB x) (hr : run (x.take k) false false = (false, false)) : NoRB (x.drop k) := by
+  unfold NoRB at hx ⊢
+  rw [← List.take_append_drop k x, noHit_append, hr] at hx
+  simp only [Bool.and_eq_true] at hx
+  exact hx.2
+
+/-- the label block handed to `parse_labels` never contains an unquoted '}' -/
+theorem noRB_label_block (text : Str) (ls : Nat) (h1 : nextUnquotedChar text (· == '{') = some ls) :
+    NoRB ((sliceTo text (nextUnquotedChar text (· == '}'))).drop (ls + 1)) := by
+  have hX := noRB_take_of_scan text _ rfl
+  obtain ⟨m, hm⟩ := sliceTo_eq_take text (nextUnquotedChar text (· == '}'))
+  rw [hm] at hX ⊢
+  by_cases hle : ls + 1 ≤ m
+  · apply noRB_drop _ hX
+    rw [List.take_take, Nat.min_eq_left hle]
+    exact run_after_lbrace text ls h1
+  · have : (text.take m).drop (ls + 1) = [] := by
+      apply List.drop_eq_nil_of_le
+      rw [List.length_take]; omega
+    rw [this]; exact noRB_nil
+
+theorem err3_parseSample (legacy : Bool) (pyInt : Str → Option Int) (pyFloat : Str → Option Nat) (text : Str) (P : Prop) :
+    Err3 P (HugeInt pyInt) (parseSample legacy pyInt pyFloat text) := by
+  have hbare : Err3 P (HugeInt pyInt)
+      (if !isValidLegacyMetricName (strip (sliceTo text (nextUnquotedChar text (fun c => c == ' ' || c == '\t')))) then
+        (.error .valueError : PyM PSample)
+       else do
+        let (value, ts) ← parseValueAndTimestamp pyInt pyFloat (sliceAfter text (nextUnquotedChar text (fun c => c == ' ' || c == '\t')))
+        pure ⟨strip (sliceTo text (nextUnquotedChar text (fun c => c == ' ' || c == '\t'))), [], value, ts⟩) := by
+    split
+    · exact safe_valueError.err3
+    · apply err3_bind (err3_pvt _ _ _ _)
+      intro _ _; exact (safe_pure _).err3
+  unfold parseSample
+  cases hls : nextUnquotedChar text (· == '{') with
+  | none => simp only [↓reduceIte]; exact hbare
+  | some ls =>
+    simp only [Option.getD_some]
+    by_cases hinf : isInfix sepHash (text.take ls) = true
+    · simp only [hinf, ↓reduceIte]; exact hbare
+    · simp only [hinf, Bool.false_eq_true, ↓reduceIte]
+      apply err3_bind (parseLabels_safe legacy _ (noRB_label_block text ls hls)).err3
+      intro labels _
+      apply err3_bind
+      · split
+        · split
+          · exact safe_throw.err3
+          · exact (safe_pure _).err3
+        · split
+          · exact safe_throw.err3
+          · exact (safe_pure _).err3
+      · intro _ _
+        apply err3_bind (err3_pvt _ _ _ _)
+        intro _ _; exact (safe_pure _).err3
+
+
+-- the family state machine ---------------------------------------------------------------------------------------------
+
+theorem safe_buildMetric (legacy : Bool) (name doc typ : Str) (samples : List PSample) :
+    Safe (buildMetric legacy name doc typ samples) := by
+  unfold buildMetric
+  simp only []
+  apply safe_bind (safe_validateMetricName _ _)
+  intro _ _
+  exact safe_ite (safe_throw_bind _) (safe_pure _)
+
+theorem safe_flush (legacy : Bool) (st : St) : Safe (flush legacy st) := by
+  unfold flush
+  apply safe_ite (safe_pure _)
+  apply safe_bind (safe_buildMetric _ _ _ _ _)
+  intro _ _; exact safe_pure _
+
+/-- the F8 trigger: a metadata line (first non-blank character '#') whose third whitespace-separated token is not empty
+but consists only of characters `str.strip()` removes — necessarily non-ASCII whitespace (U+00A0, U+001C–U+001F, U+0085,
+U+2028 …), since the tokeniser splits on ASCII whitespace -/
+def blankMetaToken (rawLine : Str) : Bool :=
+  let line := strip rawLine
+  line.head? == some '#' &&
+    (match (splitQuoted line isAsciiSpace 3)[2]? with
+     | some p2 => !p2.isEmpty && (strip p2).isEmpty
+     | none => false)
+
+theorem err3_stepLine (legacy : Bool) (pyInt : Str → Option Int) (pyFloat : Str → Option Nat) (st : St) (rawLine : Str) :
+    Err3 (blankMetaToken rawLine = true) (HugeInt pyInt) (stepLine legacy pyInt pyFloat st rawLine) := by
+  unfold stepLine
+  simp only []
+  by_cases hh : ((strip rawLine).head? == some '#') = true
+  · simp only [hh, ↓reduceIte]
+    split
+    · exact (safe_pure _).err3
+    · apply err3_bind
+      · -- candidate name
+        cases hp : (splitQuoted (strip rawLine) isAsciiSpace 3)[2]? with
+        | none => exact (safe_pure _).err3
+        | some p2 =>
+          simp only []
+          apply err3_bind
+          · intro e he
+            rcases unquoteUnescape_err p2 e he with h | ⟨h1, h2, h3⟩ | ⟨_, h⟩
+            · exact Or.inl h
+            · refine Or.inr (Or.inl ⟨h1, ?_⟩)
+              unfold blankMetaToken
+              simp only [hh, hp, Bool.true_and, Bool.and_eq_true, Bool.not_eq_true', List.isEmpty_iff]
+              exact ⟨by cases p2 <;> simp at h2 ⊢, h3⟩
+            · exact absurd h id
+          · intro x _
+            obtain ⟨c, quoted⟩ := x
+            simp only []
+            exact (safe_ite (safe_throw_bind _) (safe_pure _)).err3
+      · intro x _
+        obtain ⟨candidate, _⟩ := x
+        simp only []
+        split
+        · apply Safe.err3
+          apply safe_bind
+          · split
+            · apply safe_bind (safe_flush _ _); intro _ _; exact safe_pure _
+            · exact safe_pure _
+          · intro _ _; exact safe_pure _
+        · split
+          · split
+            · exact safe_throw.err3
+            · apply Safe.err3
+              apply safe_bind
+              · split
+                · apply safe_bind (safe_flush _ _); intro _ _; exact safe_pure _
+                · exact safe_pure _
+              · intro _ _; exact safe_pure _
+          · exact (safe_pure _).err3
+  · simp only [hh, Bool.false_eq_true, ↓reduceIte]
+    split
+    · exact (safe_pure _).err3
+    · apply err3_bind (err3_parseSample _ _ _ _ _)
+      intro sample _
+      split
+      · apply Safe.err3
+        apply safe_bind (safe_flush _ _)
+        intro _ _
+        apply safe_bind (safe_buildMetric _ _ _ _ _)
+        intro _ _; exact safe_pure _
+      · exact (safe_pure _).err3
+
+theorem err3_runLines (legacy : Bool) (pyInt : Str → Option Int) (pyFloat : Str → Option Nat) :
+    ∀ (ls : List Str) (st : St) (acc : List PFamily),
+      Err3 (∃ l ∈ ls, blankMetaToken l = true) (HugeInt pyInt) (runLines legacy pyInt pyFloat ls st acc) := by
+  intro ls
+  induction ls with
+  | nil => intro st acc; exact (safe_pure _).err3
+  | cons l ls ih =>
+    intro st acc
+    rw [runLines]
+    apply err3_bind
+    · intro e he
+      rcases err3_stepLine legacy pyInt pyFloat st l e he with h | ⟨h1, h2⟩ | h
+      · exact Or.inl h
+      · exact Or.inr (Or.inl ⟨h1, l, by simp, h2⟩)
+      · exact Or.inr (Or.inr h)
+    · intro x _
+      obtain ⟨st', out⟩ := x
+      intro e he
+      rcases ih st' (acc ++ out) e he with h | ⟨h1, l', hl', h2⟩ | h
+      · exact Or.inl h
+      · exact Or.inr (Or.inl ⟨h1, l', by simp [hl'], h2⟩)
+      · exact Or.inr (Or.inr h)
+
+/-- every way `list(text_string_to_metric_families(text))` can end, for every input and every `int()`/`float()` -/
+theorem err3_textParse (legacy : Bool) (pyInt : Str → Option Int) (pyFloat : Str → Option Nat) (text : Str) :
+    Err3 (∃ l ∈ splitLines text, blankMetaToken l = true) (HugeInt pyInt) (textParse legacy pyInt pyFloat text) := by
+  unfold textParse
+  apply err3_bind (err3_runLines _ _ _ _ _ _)
+  intro x _
+  obtain ⟨st, acc⟩ := x
+  apply Safe.err3
+  apply safe_bind (safe_flush _ _)
+  intro _ _; exact safe_pure _
+
 end PromVerif.Lemmas.TextTotal
